@@ -511,6 +511,16 @@ def file_task(task):
                 spec = LineSpec(init, path, idxfile(None) if isrc[0] == "file" else None)
                 run_static(spec, emit, counters)
                 r.nontrivial(("static", cname, isrc[0], len(spec.sel) if isrc[1] is not None else -1) + feats)
+                if isrc[1] is not None and len(isrc[1]) <= 2:
+                    # the same selection through an index FILE whose path is reused (rewritten) for every selection:
+                    # each construction must read the file as it is now
+                    p2 = os.path.join(scratch, "f%d.sel.idx" % idx)
+                    with open(p2, "w") as fh:
+                        fh.write("".join("%d\n" % offsets[i] for i in isrc[1]))
+                    if p2 not in made:
+                        made.append(p2)
+                    spec2 = LineSpec({"class": cname, "content": content, "index": ["file", list(isrc[1])]}, path, p2)
+                    run_static(spec2, emit, counters)
         hist = {"states": 0, "transitions": 0, "explorations": 0}
         if n >= 2 and depth > 0:
             for cname in VARIANTS:
